@@ -111,9 +111,11 @@ class Gateway:
         traceback: TracebackType | None,
     ) -> None:
         """Disconnect from the transport."""
-        await self.transport.disconnect()
-        if self.persistence:
-            await self.persistence.stop()
+        try:
+            await self.transport.disconnect()
+        finally:
+            if self.persistence:
+                await self.persistence.stop()
 
 
 @dataclass
